@@ -315,6 +315,8 @@ fn lit_str(v: &Val) -> String {
 pub struct EmitOpts {
     /// keep shift amounts below the operand width (required when the reference interpreter is the oracle)
     pub mask_shifts: bool,
+    /// operands of + - * / % are masked so that no arithmetic trap (overflow, underflow, division by zero) can occur
+    pub no_trap: bool,
 }
 pub fn emit_expr(e: &Expr, o: &EmitOpts, ind: usize, s: &mut String) {
     match e {
@@ -324,6 +326,25 @@ pub fn emit_expr(e: &Expr, o: &EmitOpts, ind: usize, s: &mut String) {
             s.push_str("!(");
             emit_expr(x, o, ind, s);
             s.push(')');
+        }
+        Expr::Bin(op, ty, a, b) if o.no_trap && ty.is_int() && matches!(op, BinOp::Add | BinOp::Sub | BinOp::Mul | BinOp::Div | BinOp::Rem) => {
+            let w = ty.bits().unwrap_or(64);
+            let one = BigUint::from(1u8);
+            let lit = |v: BigUint| lit_str(&Val::Int(w, v));
+            let half = lit((&one << (w as usize - 1)) - &one); // 2^(w-1) - 1
+            let high = lit(&one << (w as usize - 1));
+            let sqrt = lit((&one << (w as usize / 2)) - &one);
+            let (la, lb) = match op {
+                BinOp::Add => (format!(" & {half}"), format!(" & {half}")),
+                BinOp::Sub => (format!(" | {high}"), format!(" & {half}")),
+                BinOp::Mul => (format!(" & {sqrt}"), format!(" & {sqrt}")),
+                _ => (String::new(), format!(" | {}", lit(one.clone()))),
+            };
+            s.push_str("((");
+            emit_expr(a, o, ind, s);
+            let _ = write!(s, "{la}) {} (", op.sym());
+            emit_expr(b, o, ind, s);
+            let _ = write!(s, "{lb}))");
         }
         Expr::Bin(op, ty, a, b) => {
             s.push('(');
